@@ -12,8 +12,10 @@ structure St where
   r : RState
   cfg : Cfg
   stream : List Nat
+  fwd : FwdCfg := ⟨0, false, false, false, false⟩
+  addr : Nat := 0
 
-def St.new : St := ⟨RState.init (List.replicate maxBuf 0), ⟨true, 65, 0, false⟩, []⟩
+def St.new : St := { r := RState.init (List.replicate maxBuf 0), cfg := ⟨true, 65, 0, false⟩, stream := [] }
 
 def faultStr : Fault → String
   | .encIndex => "fault:encIndex"
@@ -41,6 +43,28 @@ def step (s : St) (w : List String) : St × String :=
     | some prio, some pgn, some dst, some src, some time, some d =>
       match sendInActisense ⟨prio, pgn, dst, src, time, d.length, d⟩ with
       | .ok bytes => ({ s with stream := s.stream ++ bytes }, hexOfBytes bytes)
+      | .error f => (s, faultStr f)
+    | _, _, _, _, _, _ => (s, "bad-op")
+  -- node level: forwarding policy (harness actifwd.cpp)
+  | ["fnew", mode, en, own, known, sys, addr] =>
+    match nat? mode, nat? addr with
+    | some mode, some addr =>
+      ({ s with fwd := ⟨mode, en == "1", own == "1", known == "1", sys == "1"⟩, addr := addr }, s!"ok {addr}")
+    | _, _ => (s, "bad-op")
+  | ["fsend", t, prio, pgn, dst, dat] =>
+    match nat? t, nat? prio, nat? pgn, nat? dst, hexBytes? dat with
+    | some t, some prio, some pgn, some dst, some d =>
+      if sendAccepted s.fwd then
+        match forwarded (forwardOwn s.fwd) ⟨prio, pgn, dst, s.addr, t, d.length, d⟩ with
+        | .ok bytes => (s, "1 " ++ hexOfBytes bytes)
+        | .error f => (s, faultStr f)
+      else (s, "0 -")
+    | _, _, _, _, _ => (s, "bad-op")
+  | ["frx", t, prio, pgn, src, dst, dat, known, sys] =>
+    match nat? t, nat? prio, nat? pgn, nat? src, nat? dst, hexBytes? dat with
+    | some t, some prio, some pgn, some src, some dst, some d =>
+      match forwarded (forwardRx s.fwd (known == "1") (sys == "1") (src == s.addr)) ⟨prio, pgn, dst, src, t, d.length, d⟩ with
+      | .ok bytes => (s, hexOfBytes bytes)
       | .error f => (s, faultStr f)
     | _, _, _, _, _, _ => (s, "bad-op")
   | ["rnew", src, fill, mode] =>
